@@ -85,14 +85,16 @@ pub struct RealProblem {
     pub lo: f64,
     pub hi: f64,
     pub dim: usize,
-    /// 0 = sphere, 1 = shifted multimodal
+    /// 0 = sphere, 1 = shifted multimodal, 2 = plateaus (integer-valued: many exact ties)
     pub kind: u8,
+    /// per-dimension domains: dimension j has [lo / (j + 1), hi / (j + 1)]
+    pub hetero: bool,
     pub stats: Arc<Stats>,
 }
 
 impl RealProblem {
     pub fn new(kind: u8, dim: usize, lo: f64, hi: f64) -> Self {
-        Self { lo, hi, dim, kind, stats: Arc::new(Stats::default()) }
+        Self { lo, hi, dim, kind, hetero: false, stats: Arc::new(Stats::default()) }
     }
 }
 
@@ -111,7 +113,11 @@ impl VectorProblem for RealProblem {
 }
 impl LimitedVectorProblem for RealProblem {
     fn domain(&self) -> Vec<Range<f64>> {
-        vec![self.lo..self.hi; self.dim]
+        if self.hetero {
+            (0..self.dim).map(|j| (self.lo / (j as f64 + 1.0))..(self.hi / (j as f64 + 1.0))).collect()
+        } else {
+            vec![self.lo..self.hi; self.dim]
+        }
     }
 }
 impl KnownOptimumProblem for RealProblem {
@@ -126,6 +132,7 @@ impl Instrumented for RealProblem {
     fn pure(&self, x: &Vec<f64>) -> f64 {
         match self.kind {
             0 => x.iter().map(|v| v * v).sum(),
+            2 => x.iter().map(|v| (v * 2.0).floor().abs()).sum(),
             _ => x.iter().enumerate().map(|(i, v)| (v - 0.25 * (i as f64 + 1.0)).abs() + (3.0 * v).sin().abs() * 0.5).sum(),
         }
     }
